@@ -232,6 +232,17 @@ func judgeEvents(r *Run, w *World, e *Engine) {
 					if first == "" {
 						ok = ok || rtDone.ErrorType == "Runtime.Unknown"
 					}
+					if !ok && first != "" && r.heldBetween(faultStepOf(faults, gen, first), rtDone.Step) {
+						// a goroutine of the emulator (the events watcher, say) was deliberately descheduled between the
+						// delivery of the first fault and this event: the order in which the emulator learned of the faults
+						// delivered meanwhile is the order in which its goroutines got to run, any of them may be "first"
+						for _, f := range faults {
+							if f.gen == gen && f.step <= rtDone.Step && f.typ == rtDone.ErrorType {
+								ok = true
+								r.Probe("error-type:order-decided-by-a-hold")
+							}
+						}
+					}
 					r.Check(ok, "C15.error-type", "init-runtime-done of initialisation #%d (generation %d) carries error type %q, the first fault delivered was %q", nInit, gen, rtDone.ErrorType, first)
 				}
 			}
@@ -309,6 +320,16 @@ func faultStepOf(fs []faultRec, gen int, typ string) int {
 		}
 	}
 	return -1
+}
+
+// heldBetween reports whether a deliberately held goroutine was parked at some moment between the two steps.
+func (r *Run) heldBetween(from, to int) bool {
+	for _, h := range r.Holds {
+		if h.W != nil && h.AtStep <= to && (!h.Released || h.RelStep >= from) {
+			return true
+		}
+	}
+	return false
 }
 
 // heldDuring reports whether a deliberately held goroutine could have delayed effects between two steps.
